@@ -3,8 +3,8 @@
 From Coq Require Export List NArith ZArith Bool Lia.
 Export ListNotations.
 
-Definition byte := N.
-Definition bytes := list N.
+Notation byte := N (only parsing).
+Notation bytes := (list N) (only parsing).
 
 Fixpoint beq (a b : bytes) : bool :=
   match a, b with
